@@ -350,7 +350,19 @@ def check_frontend(ctx, model):
     spec = HelperGuard("msg.result.into_result()?", r"SubMsgResult::into_result$")
     effects = [b for b, i, l, d in message_creations(rv_, model)]
     ok = bool(effects) and all(site_guarded(model, (), p, b, spec)[0] for b in effects)
-    ctx.ob("C11-K5", "%s|failed-deposit-is-error" % p, ok, "every message of the reply is dominated by the success edge of into_result()?: %s" % ok, rv_.where())
+    # ... and the failure side is an error: from the Err edge of into_result() no successful return is reachable, however
+    # the result is tested (`?`, match, if let Err)
+    from ..guards import result_edges
+    res_tests = result_edges(rv_, re.compile(r"SubMsgResult::into_result$"))
+    okb = set(ok_value_blocks(rv_))
+    swallowed = []
+    for oke, hb, t_, erre in res_tests:
+        for (_, tgt) in erre:
+            if rv_.reachable(tgt) & okb:
+                swallowed.append(tgt)
+    ok = ok and bool(res_tests) and not swallowed
+    ctx.ob("C11-K5", "%s|failed-deposit-is-error" % p, ok,
+           "every message of the reply is dominated by the success edge of into_result(): %s; a failed deposit can end in a successful reply: %s" % (ok or bool(swallowed), bool(swallowed)), rv_.where())
     for b, i, s in rv_.iter_stmts():
         r = s["rv"]
         if r["r"] == "agg" and r.get("adt", "").endswith("incentive::ExecuteMsg") and r.get("variant") in ("OpenPosition", "ExpandPosition"):
